@@ -664,6 +664,10 @@ def _sym_sqrt(x, *a, **k):
         return x.sqrt()
     if has_sym(x):
         return _map(sarr(x), lambda v: lift(v).sqrt())
+    from .core import _CTX
+    if _CTX and getattr(_CTX[-1], "exact_sqrt", False) and isinstance(x, (int, float, np.integer, np.floating)) \
+            and not isinstance(x, (bool, np.bool_)) and x >= 0:
+        return lift(x).sqrt()     # exact algebraic number (a perfect-square rational collapses to a constant)
     return np.sqrt(x, *a, **k)
 
 
